@@ -12,7 +12,8 @@ import vf
 import c16_lib as L
 
 CRATES = ["core", "rust", "c", "cpp", "csharp", "go", "d", "moonbit", "markdown"]
-ITER_METHODS = ["iter", "iter_mut", "keys", "values", "values_mut", "drain", "into_iter", "into_keys", "into_values", "retain"]
+ITER_METHODS = ["iter", "iter_mut", "keys", "values", "values_mut", "drain", "into_iter", "into_keys", "into_values", "retain",
+                "difference", "symmetric_difference", "intersection", "union"]
 
 
 def _files(crate):
